@@ -35,6 +35,42 @@ def readable_currencies():
     return sorted(out)
 
 
+ENERGY = [{'op': 'new_calc', 'c': 7, 'seg': True}, {'op': 'add_type', 'c': 7, 'name': 'energy'},
+          {'op': 'add_type_item', 'c': 7, 'name': 'energy', 'index': 1, 'format': '{value} Wh', 'parse': ['{NUMBER:value} {TEXT:type:Wh}', '{NUMBER:value} {TEXT:type:watthour}'],
+           'up': '{value} / 1000', 'down': '{value}', 'names': ['Wh', 'watthour']},
+          {'op': 'add_type_item', 'c': 7, 'name': 'energy', 'index': 2, 'format': '{value} kWh', 'parse': ['{NUMBER:value} {TEXT:type:kWh}', '{NUMBER:value} {TEXT:type:kilowatthour}'],
+           'up': '{value} / 1000', 'down': '{value} * 1000', 'names': ['kWh', 'kilowatthour']},
+          {'op': 'add_type_item', 'c': 7, 'name': 'energy', 'index': 3, 'format': '{value} MWh', 'parse': ['{NUMBER:value} {TEXT:type:MWh}', '{NUMBER:value} {TEXT:type:megawatthour}'],
+           'up': '{value}', 'down': '{value} * 1000', 'names': ['MWh', 'megawatthour']}]
+
+
+def user_units(ctx, drv, cfg, sep, lang):
+    """unit quantities of a family the application registered, whose printed unit words carry capitals (kWh)"""
+    rng, res = ctx.rng, ctx.res
+    setup = ENERGY[:1] + mon.gh.config_ops(cfg, 7, seg=False) + ENERGY[1:]
+    src = []
+    for _ in range(10):
+        _, x = gen_value(rng, 2)
+        lit = render_literal(canon_of_float(abs(x)), sep)
+        w = rng.choice(['watthour', 'kilowatthour', 'megawatthour'])
+        src.append(rng.choice(['%s %s' % (lit, w), '%s %s to %s' % (lit, w, rng.choice(['Wh', 'kWh', 'MWh', 'kilowatthour']))]))
+    r1 = drv.run(setup + [{'op': 'execute', 'c': 7, 'lang': lang, 'text': t} for t in src])[len(setup):]
+    outs = [(t, mon.slot0(r)) for t, r in zip(src, r1)]
+    outs = [(t, s_) for t, s_ in outs if mon.kind(s_) == 'unit' and s_.get('out')]
+    r2 = drv.run([{'op': 'execute', 'c': 7, 'lang': lang, 'text': s_['out']} for _, s_ in outs])
+    for (t, first), r in zip(outs, r2):
+        slot = mon.slot0(r)
+        res.cases += 1
+        res.count('kind:unit-registered-by-the-application')
+        res.distinct.add('uunit', sep, lang, first['out'])
+        if mon.kind(slot) == 'unit' and slot.get('out') == first['out']:
+            res.count('ok')
+        else:
+            res.violation('roundtrip:unit:registered-by-the-application', 'the printed form %r (from %r) of a unit registered with add_dynamic_type_item gives %s when typed back (separators %r, %s)' % (
+                first['out'], t, mon.describe(slot), sep, lang),
+                {'config': cfg, 'lang': lang, 'text': first['out'], 'source': t, 'ops': setup + [{'op': 'execute', 'c': 7, 'lang': lang, 'text': t}, {'op': 'execute', 'c': 7, 'lang': lang, 'text': first['out']}]})
+
+
 def run_shard(ctx):
     rng = ctx.rng
     res = ctx.res
@@ -102,6 +138,7 @@ def run_shard(ctx):
             items.append((lang, text))
             meta.append((kind, text))
         rs = mon.run_lines(drv, cfg, items)
+        user_units(ctx, drv, cfg, sep, lang)
         second, smeta = [], []
         for (kind, text), r in zip(meta, rs):
             slot = mon.slot0(r)
